@@ -216,8 +216,12 @@ func literalOK(fl *ast.FuncLit, src []byte, off func(token.Pos) int) ([]string, 
 		switch x := n.(type) {
 		case *ast.FuncLit:
 			return false
-		case *ast.DeferStmt, *ast.LabeledStmt:
+		case *ast.DeferStmt:
 			ok = false
+		case *ast.LabeledStmt:
+			if !strings.HasPrefix(x.Label.Name, "verifInl") { // our own run-once loops are self-contained
+				ok = false
+			}
 		case *ast.BranchStmt:
 			if x.Tok == token.GOTO {
 				ok = false
@@ -498,7 +502,10 @@ func flattenOnce(filename string, src []byte, pass int) ([]byte, int) {
 				return false
 			case *ast.ReturnStmt:
 				if len(x.Results) != len(as.Lhs) && !(len(x.Results) == 0 && resNames != nil) {
-					arity = false // `return f()` spreading a tuple: not handled
+					// `return f()` spreading a call's tuple is fine (t0, t1 = f()); anything else is not handled
+					if _, isCall := x.Results[0].(*ast.CallExpr); !isCall || len(x.Results) != 1 {
+						arity = false
+					}
 				}
 			}
 			return true
@@ -635,6 +642,17 @@ func flattenOnce(filename string, src []byte, pass int) ([]byte, int) {
 		body := bodyWithReturns(fl, src, off, func(rs []string) string {
 			if len(rs) == 0 && resNames != nil {
 				rs = append([]string{}, resNames...) // bare return: the named results
+			}
+			if len(rs) == 1 && len(lhs) > 1 {
+				// a call's tuple returned as is: nothing is known about the tested value here
+				cont := ""
+				if thread != nil {
+					cont = "; if " + renamed(thread.Cond) + " " + renamed(thread.Body)
+					if thread.Else != nil {
+						cont += " else " + renamed(thread.Else)
+					}
+				}
+				return "{ " + strings.Join(tmp, ", ") + " = " + strings.TrimPrefix(rs[0], "\x00") + cont + "; break " + label + " }"
 			}
 			if len(rs) != len(lhs) {
 				return "{ break " + label + " }" // cannot happen for unnamed results; keeps the text well-formed
